@@ -234,6 +234,9 @@ impl Store {
                 TransactionAndTables::new(tx)?
             }
             CurrentTransaction::Write(w) => {
+                // verification hook: a check can make the open transaction look too old on demand
+                #[cfg(feature = "verif")]
+                let w = verif_incrate::commit_age::age(w);
                 if w.since.elapsed() > MAX_COMMIT_DELAY {
                     tracing::debug!("committing transaction because it's too old");
                     w.commit()?;
@@ -271,6 +274,9 @@ impl Store {
                 TransactionAndTables::new(tx)?
             }
             CurrentTransaction::Write(w) => {
+                // verification hook: a check can make the open transaction look too old on demand
+                #[cfg(feature = "verif")]
+                let w = verif_incrate::commit_age::age(w);
                 if w.since.elapsed() > MAX_COMMIT_DELAY {
                     tracing::debug!("committing transaction because it's too old");
                     w.commit()?;
